@@ -672,7 +672,30 @@ func run(c *core.Ctx) {
 			progs[g] = p
 		}
 	}
-	desc := fmt.Sprintf("G=%d prepareStmt=%v warm=%v yieldAtSchemaStored=%v oneModelContention=%v", G, prep, warm, yield, hot)
+	// ownHandle: every goroutine first derives a handle of its own from the shared one (what request handlers do:
+	// a prepared-statement session, a WithContext / Session handle per request) and runs its program on that
+	ownHandle := (c.Case / 5) % 4
+	if ownHandle < 2 {
+		ownHandle = 0
+	}
+	deriveOwn := func(root *gorm.DB, g int) *gorm.DB {
+		var own *gorm.DB
+		switch {
+		case ownHandle == 2:
+			own = root.Session(&gorm.Session{PrepareStmt: true})
+		case ownHandle == 3 && g%2 == 0:
+			own = root.WithContext(context.Background())
+		case ownHandle == 3:
+			own = root.Session(&gorm.Session{})
+		default:
+			return root
+		}
+		if sh := getShared(root); sh != nil {
+			sharedOf.Store(own, sh)
+		}
+		return own
+	}
+	desc := fmt.Sprintf("G=%d prepareStmt=%v warm=%v yieldAtSchemaStored=%v oneModelContention=%v handlePerGoroutine=%d", G, prep, warm, yield, hot, ownHandle)
 	c.Logf("RUN %s", desc)
 
 	// serial reference on its own database and handle
@@ -681,7 +704,11 @@ func run(c *core.Ctx) {
 	defer sharedOf.Delete(hs.DB)
 	want := make([][]string, G)
 	for g := range progs {
-		want[g] = runProgram(hs.DB, g, progs[g])
+		own := deriveOwn(hs.DB, g)
+		want[g] = runProgram(own, g, progs[g])
+		if own != hs.DB {
+			sharedOf.Delete(own)
+		}
 	}
 	wantDump := dumpAll(hs)
 	hs.Close()
@@ -732,7 +759,11 @@ func run(c *core.Ctx) {
 				}
 			}()
 			<-start
-			got[g] = runProgram(h.DB, g, progs[g])
+			own := deriveOwn(h.DB, g)
+			got[g] = runProgram(own, g, progs[g])
+			if own != h.DB {
+				sharedOf.Delete(own)
+			}
 		}(g)
 	}
 	close(start)
